@@ -392,6 +392,20 @@ func init() {
 			default:
 				w = Generate(c.Tape, crashTierProfile(profC01, c.Tier))
 			}
+			if c.Tape.Choose(simrt.StGen, 6, 0) == 1 {
+				// a command that returns while a child of it (which inherited its
+				// stdout/stderr) still writes the rest of an output: `... | tee >(f > OUT)`
+				var procs []*Node
+				for i := range w.Nodes {
+					if n := &w.Nodes[i]; n.Kind == KProc && n.Custom == 0 && len(n.Outs) > 0 && !n.Outs[0].Stream {
+						procs = append(procs, n)
+					}
+				}
+				if len(procs) > 0 {
+					procs[c.Tape.Choose(simrt.StGen, len(procs), 0)].BgTail = true
+					c.Fault("background-writer")
+				}
+			}
 			ex := Eval(w)
 			var fault, fault2 *FaultSpec
 			what := ""
@@ -416,7 +430,19 @@ func init() {
 					c.Fault("cmd-list-middle-fails")
 				}
 			}
-			if k := c.Tape.Choose(simrt.StFault, 2, 0); k == 1 && failProc == "" {
+			diskFull := 0
+			if failProc == "" && c.Tape.Choose(simrt.StFault, 6, 0) == 1 {
+				for _, n := range w.Nodes {
+					if n.Custom != 0 {
+						// a Go-function task meets a full disk: one of its writes is short
+						// and returns ENOSPC
+						diskFull = 1 + c.Tape.Choose(simrt.StFault, 4, 0)
+						what = fmt.Sprintf(" with the disk full at Go-level write #%d", diskFull)
+						break
+					}
+				}
+			}
+			if k := c.Tape.Choose(simrt.StFault, 2, 0); k == 1 && failProc == "" && diskFull == 0 {
 				var cands []*RTask
 				for _, t := range ex.Tasks {
 					if len(t.Outs) > 0 {
@@ -440,7 +466,7 @@ func init() {
 				}
 			}
 			c.Sample = "crash-state enumeration" + what + ": " + sample(w)
-			inc := RunInc(w, c.Tape, nil, 0, IncOpts{KillAt: -1, Strategy: strategyOf(c.Tape), Trace: c.Trace, Snapshots: true, Fault: fault, Fault2: fault2})
+			inc := RunInc(w, c.Tape, nil, 0, IncOpts{KillAt: -1, Strategy: strategyOf(c.Tape), Trace: c.Trace, Snapshots: true, Fault: fault, Fault2: fault2, DiskFullAt: diskFull})
 			c.Absorb(inc)
 			c.Tasks = max(c.Tasks, len(execKeys(inc.Sim.Shell.Trace, "start", 0)))
 			if v, ok := inconclusiveEnd(inc); ok {
@@ -570,7 +596,7 @@ func sameNameWF(c *Case) *WF {
 var profC03 = Profile{
 	MaxProcs: 3, MaxItems: 2, Bufsizes: []int{0, 1, 2}, MaxSlots: 3,
 	Params: true, MultiOut: true, FanIn: true, FanOut: true,
-	Subdirs: true, Extras: true, Cores: true, Zip: true, EmptyOuts: true, Joins: true,
+	Subdirs: true, ParentAbs: true, Extras: true, Cores: true, Zip: true, EmptyOuts: true, Joins: true,
 }
 
 // finalBefore: declared outputs that are already final (present) in a tree.
